@@ -10,6 +10,9 @@
       - a finished pod never becomes running again;
       - the scheduler always sends the pod's UID with a bind request;
       - API release requests carry a key object that is the parse of its own key (what api.go builds);
+      - the pod object handed to a pod-IP sync is a pod object (names as above, a UID): ANY such object, in particular the
+        informer's current one and every object the informer or the API server showed earlier - an earlier
+        incarnation of a pod deleted and created again under its name (F16);
       - configuration reloads and restarts keep every IP that a live pod holds, and every deletion of a
         de-configured object succeeds (a failed deletion is the fault case of C05/C09 at the crdIpam layer);
       - administrator reservations are crdIpam-level operations (C09) and are not part of these histories. *)
@@ -63,6 +66,7 @@ Definition wf_op (w : world) (o : pop) : Prop :=
   | PIpam (OConfigure conf _ delfail) => delfail = [] ∧ keeps_live w conf
   | PIpam _ => False
   | PRestart conf => keeps_live w conf
+  | PSyncPod p _ => wf_pod p
   | _ => True
   end.
 
